@@ -44,6 +44,7 @@ import XotModel.Lemmas.LexRejectShapes
 import XotModel.Lemmas.AcceptedMain
 import XotModel.Lemmas.AcceptedWitness
 import XotModel.Props.C01
+import XotModel.Lemmas.BytesTotal
 
 namespace XotModel.Props
 open XotModel XotModel.Witness
@@ -664,5 +665,124 @@ theorem C03_accepted_xml_pi_false :
       (placeTokens 0 ts, some (strLen (renderTokens ts))) :=
     reject_content frag ts d _ ('?' :: 'x' :: 'm' :: 'l' :: ' ' :: rest) rfl hok hctx (failsAt_xml_pi frag d _ rest)
   exact C03_string_reject_lexerr _ env _ _ (by rw [h]) p
+
+end XotModel.Props
+
+/-! # ================================================================================================
+    # BYTES (branch wt-bytes): `Xot::parse_bytes` on ANY byte sequence
+    # ================================================================================================
+
+  `Bytes.parseBytes m env bs = (decodeBytes bs).map (parseString m env)` (Model/Bytes.lean: xot's
+  `encoding::decode` with the external detector / decoders modelled as written, tied to the real code
+  by the `bytes` suite).  `decodeBytes` is a total function; it answers `none` only where the MODEL
+  has no decoder (the declaration names one of 34 legacy encodings known by name only, and there is no
+  byte order mark) — the real `decode` cannot fail since /repo f576658.
+
+    C03_bytes_total          no panic outcome on any byte string
+    C03_bytes_decode_total   the model decodes every byte string whose chosen encoding it models
+    C03_bytes_sound          what `parse_bytes` accepts is structurally valid, one element at the top
+-/
+
+namespace XotModel.Props
+open XotModel XotModel.Bytes
+
+/-- C03_bytes_total: on ANY byte sequence the outcome of `parse_bytes` (and of the fragment variant) is
+    never a panic: `decode` yields a string, `parse` never panics on a string (`C03_string_nopanic`). -/
+theorem C03_bytes_total (m : Mode) (env : Env) (bs : Bytes) :
+    ∀ r, Bytes.parseBytes m env bs = some r → r ≠ .panic := by
+  intro r hr
+  unfold Bytes.parseBytes at hr
+  cases hd : decodeBytes bs with
+  | none => rw [hd] at hr; cases hr
+  | some s =>
+    rw [hd] at hr
+    simp only [Option.map_some, Option.some.injEq] at hr
+    rw [← hr]
+    exact C03_string_nopanic m env s
+
+/-- C03_bytes_decode_total: the model has an answer for every byte string that carries a UTF-8 / UTF-16
+    byte order mark, and for every byte string for which `encoding()` does not choose one of the
+    encodings known by name only (UTF-8, UTF-16LE / BE, windows-1252 and all its labels, replacement,
+    x-user-defined, no encoding found: all decoded). -/
+theorem C03_bytes_decode_total (bs : Bytes)
+    (h : (bomSniff bs).isSome = true ∨ ∀ n, encodingOf bs ≠ some (.other n)) :
+    ∃ s, decodeBytes bs = some s := by
+  have : (decodeBytes bs).isSome = true := by
+    rcases h with h | h
+    · exact decodeBytes_isSome_of_bom bs h
+    · exact decodeBytes_isSome bs h
+  exact Option.isSome_iff_exists.mp this
+
+/-- … in particular whenever xot's reader finds no declaration. -/
+theorem C03_bytes_decode_total_undeclared (bs : Bytes) (h : xmlDeclaration bs = none) :
+    ∃ s, decodeBytes bs = some s := by
+  apply C03_bytes_decode_total
+  by_cases hb : (bomSniff bs).isSome = true
+  · exact Or.inl hb
+  · right
+    intro n hn
+    -- without a hint the candidates are the BOM information or `utf-8`, never a legacy label
+    unfold encodingOf at hn
+    rw [h] at hn
+    rcases bs with _ | ⟨a, _ | ⟨b, _ | ⟨c, _ | ⟨d, _ | ⟨e, rest⟩⟩⟩⟩⟩
+    · cases hn
+    · cases hn
+    · cases hn
+    · cases hn
+    · simp only [List.take, detectHead] at hn
+      rw [show forLabel ['U', 'T', 'F', '-', '8'] = some Enc.utf8 by decide] at hn
+      cases hn
+    · simp only [List.take, detectHead] at hn
+      have hl : ∀ x, bomLabel x = none ∨ bomLabel x = some ['u', 'c', 's', '-', '4', 'l', 'e'] ∨
+          bomLabel x = some ['u', 'c', 's', '-', '4', 'b', 'e'] ∨ bomLabel x = some ['u', 't', 'f', '-', '1', '6', 'l', 'e'] ∨
+          bomLabel x = some ['u', 't', 'f', '-', '1', '6', 'b', 'e'] ∨ bomLabel x = some ['u', 't', 'f', '-', '8'] ∨
+          bomLabel x = some ['e', 'b', 'c', 'd', 'i', 'c'] := by
+        intro x
+        unfold bomLabel
+        split <;> simp
+      rcases hl (detectByteOrderMark a b c d) with hx | hx | hx | hx | hx | hx | hx <;> rw [hx] at hn
+      · simp only [List.isEmpty_nil, Bool.true_and] at hn
+        by_cases he : e < 0x80
+        · simp only [he, decide_true, if_true] at hn
+          rw [show forLabel ['u', 't', 'f', '-', '8'] = some Enc.utf8 by decide] at hn
+          cases hn
+        · simp only [he, decide_false, Bool.false_eq_true, if_false] at hn
+          rw [show forLabel ['U', 'T', 'F', '-', '8'] = some Enc.utf8 by decide] at hn
+          cases hn
+      all_goals
+        simp only [pushIfNotContains_nil, List.isEmpty_cons, Bool.false_and, Bool.false_eq_true, if_false] at hn
+        first
+          | (rw [show forLabel ['u', 'c', 's', '-', '4', 'l', 'e'] = none by decide] at hn; cases hn)
+          | (rw [show forLabel ['u', 'c', 's', '-', '4', 'b', 'e'] = none by decide] at hn; cases hn)
+          | (rw [show forLabel ['u', 't', 'f', '-', '1', '6', 'l', 'e'] = some Enc.utf16le by decide] at hn; cases hn)
+          | (rw [show forLabel ['u', 't', 'f', '-', '1', '6', 'b', 'e'] = some Enc.utf16be by decide] at hn; cases hn)
+          | (rw [show forLabel ['u', 't', 'f', '-', '8'] = some Enc.utf8 by decide] at hn; cases hn)
+          | (rw [show forLabel ['e', 'b', 'c', 'd', 'i', 'c'] = none by decide] at hn; cases hn)
+
+/-- C03_bytes_sound: whatever `parse_bytes` accepts, from ANY byte sequence, is structurally valid, has
+    no adjacent text nodes and exactly one element and no text at the top level. -/
+theorem C03_bytes_sound {env : Env} {bs : Bytes} {p : Parsed}
+    (h : Bytes.parseBytes .document env bs = some (.ok p)) :
+    StructValid p.tree ∧ NoAdjacentText p.tree ∧ WellFormedTop p.tree := by
+  unfold Bytes.parseBytes at h
+  cases hd : decodeBytes bs with
+  | none => rw [hd] at h; cases h
+  | some s =>
+    rw [hd] at h
+    simp only [Option.map_some, Option.some.injEq] at h
+    exact ⟨(C03_string_sound h).1, (C03_string_sound h).2, C03_string_sound_document h⟩
+
+/-- Non-vacuity, by evaluation of the model: arbitrary bytes, fewer than four bytes, a lone UTF-16
+    surrogate behind a byte order mark, an unknown label — all decode (U+FFFD for what is ill-formed). -/
+example : decodeBytes [0xFF] = some ['\uFFFD'] := by decide
+example : decodeBytes [] = some [] := by decide
+example : decodeBytes [0x3C, 0xC3] = some ['<', '\uFFFD'] := by decide
+example : decodeBytes [0xFF, 0xFE, 0x00, 0xD8, 0x41] = some ['\uFFFD'] := by decide
+example : decodeBytes [0x00, 0x00, 0xFE, 0xFF, 0x41] = some ['\x00', '\x00', '\uFFFD', '\uFFFD', 'A'] := by decide
+/-- the only `none` of the model: a legacy encoding named in the declaration (`<?xml encoding='koi8-r'?>`) -/
+example : decodeBytes (asciiBytes ['<', '?', 'x', 'm', 'l', ' ', 'e', 'n', 'c', 'o', 'd', 'i', 'n', 'g', '=', '\'', 'k', 'o', 'i', '8',
+    '-', 'r', '\'', '?', '>']) = none ∧
+    encodingName (asciiBytes ['<', '?', 'x', 'm', 'l', ' ', 'e', 'n', 'c', 'o', 'd', 'i', 'n', 'g', '=', '\'', 'k', 'o', 'i', '8',
+    '-', 'r', '\'', '?', '>']) = some ['K', 'O', 'I', '8', '-', 'R'] := by decide
 
 end XotModel.Props
